@@ -89,9 +89,28 @@ def contains_contract(eng):
                 for c in o.extra_pc:
                     p.assume(c)
                 raise PyRaise(o.value, o.where)
-        return mk.sbool(p, 'contains')
+        res = mk.sbool(p, 'contains')
+        # ghost: which node was searched, with which answer (C14 below)
+        p.ghost.setdefault('contains_queries', []).append((node, res))
+        return res
 
     eng.overrides['ddsmt.nodes.contains'] = contains
+
+
+# The commands of SMT-LIB 2.6 that declare or define a symbol with a sort, and
+# the positions of the command at which sorts occur (from the standard, not
+# from the code): C14 lets theory detection disable a group only if the input
+# declares nothing of the theory.
+DECLARING_FORMS = {
+    'declare-const': (2, ),
+    'declare-fun': (2, 3),
+    'define-fun': (2, 3),
+    'define-fun-rec': (2, 3),
+    'define-sort': (3, ),
+    'define-funs-rec': (1, ),
+    'declare-datatype': (2, ),
+    'declare-datatypes': (2, ),
+}
 
 
 def make_is_relevant(theory):
@@ -105,6 +124,43 @@ def make_is_relevant(theory):
                  info={'outcome': repr(out), 'node': nm.render(node),
                        'signature': out.exc_name()
                        if out.kind == 'raise' else ''})
+        if out.kind != 'return':
+            return
+        res = out.value
+        N = f'C14/mutators_{theory}.is_relevant'
+        p.oblige(f'{N}/returns-a-boolean', res is True or res is False,
+                 info=repr(res))
+        if res is not False:
+            return
+        # "not relevant": then, whatever declaring command this is, every
+        # one of its sort positions was searched for a sort of the theory
+        # (and the search - nodes.contains through its contract - said no;
+        # a yes would have been returned as True on this path)
+        s = nm.S(node)
+        kids = nm.Struct.kids(s)
+        asked = {k for k, ch in node.tag.get('kids', {}).items()
+                 if any(q[0] is ch for q in p.ghost.get(
+                     'contains_queries', []))}
+        for form, pos in DECLARING_FORMS.items():
+            if theory == 'datatypes':
+                # a symbol over a datatype presupposes the command that
+                # declares the datatype: that command is what counts
+                if not form.startswith('declare-datatype'):
+                    continue
+                pos, missing = (0, ), ['the command itself']
+            else:
+                missing = [k for k in pos if k not in asked]
+            if not missing:
+                continue
+            is_form = z3.And(nm.Struct.is_tup(s),
+                             z3.Length(kids) > max(pos),
+                             nm.Struct.is_leaf(kids[0]),
+                             nm.Struct.text(kids[0]) == z3.StringVal(form))
+            p.oblige(f'{N}/not-relevant-only-after-looking-at-every-sort-'
+                     f'position[{form}]', z3.Not(is_form),
+                     info={'signature': f'({form} ...) is judged not relevant '
+                           f'without looking at position(s) {missing}',
+                           'node': nm.render(node)})
 
     return run
 
@@ -638,6 +694,83 @@ def native_checks(tier):
     ]
 
 
+THEORY_SORT = {
+    'arithmetic': 'Int', 'bv': ['_', 'BitVec', '8'],
+    'fp': ['_', 'FloatingPoint', '5', '11'], 'strings': 'String',
+}
+
+
+def relevant_replay(theory):
+    """Replay for both kinds of obligation of the is_relevant contracts: an
+    exception is searched for as before; 'judged not relevant without
+    looking' is shown on the real function with commands of the form the
+    obligation names that carry a sort of the theory at a sort position."""
+    search = search_replay(f'mutators_{theory}.is_relevant(node)',
+                           imports=f'from ddsmt import mutators_{theory}')
+
+    def replay(name, model, detail):
+        if '/not-relevant-only-after-' not in name:
+            return search(name, model, detail)
+        form = name[name.index('[') + 1:name.rindex(']')]
+        S = THEORY_SORT.get(theory, 'T')
+        cmds = {
+            'declare-const': [['declare-const', 'x', S]],
+            'declare-fun': [['declare-fun', 'f', [S], 'Bool'],
+                            ['declare-fun', 'f', ['Bool'], S]],
+            'define-fun': [['define-fun', 'f', [['a', S]], 'Bool', 'true'],
+                           ['define-fun', 'f', [], S, 'v']],
+            'define-fun-rec': [['define-fun-rec', 'f', [['a', S]], 'Bool',
+                                ['f', 'a']],
+                               ['define-fun-rec', 'f', [['a', 'Bool']], S,
+                                ['f', 'a']]],
+            'define-sort': [['define-sort', 'N', [], S]],
+            'define-funs-rec': [['define-funs-rec',
+                                 [['f', [['a', S]], 'Bool']], [['f', 'a']]],
+                                ['define-funs-rec',
+                                 [['f', [['a', 'Bool']], S]], [['f', 'a']]]],
+            'declare-datatype': [['declare-datatype', 'T',
+                                  [['mk', ['fld', S]]]]],
+            'declare-datatypes': [['declare-datatypes', [['T', '0']],
+                                   [[['c'], ['mk', ['fld', S]]]]]],
+        }[form]
+        script = f"""
+import sys
+from harness import replaylib as R
+R.init_ddsmt()
+from ddsmt import mutators_{theory}
+bad = 0
+for cmd in {cmds!r}:
+    got = mutators_{theory}.is_relevant(R.build(cmd))
+    print(R.sexpr(cmd), '-> is_relevant:', got)
+    if got is not True:
+        bad += 1
+if bad:
+    print('declares a symbol of the {theory} theory, judged not relevant: '
+          'the group would be disabled automatically')
+sys.exit(1 if bad else 0)
+"""
+        return {'script': script, 'input': cmds}
+
+    return replay
+
+
+def is_relevant_contracts(tier):
+    """Exception freedom (C04) and the theory-detection clause of C14 for
+    the five is_relevant() functions, on an arbitrary command."""
+    return [
+        Contract(f'C04/mutators_{th}.is_relevant',
+                 [f'ddsmt.mutators_{th}.is_relevant'],
+                 make_is_relevant(th), setup=setup_nodes,
+                 assumptions=A_NODES + [
+                     'nodes.contains used through its contract (applies '
+                     'the predicate to sub-nodes only); which commands '
+                     'declare a symbol and where their sorts stand is taken '
+                     'from SMT-LIB 2.6 (DECLARING_FORMS)'],
+                 replay=relevant_replay(th))
+        for th in ('arithmetic', 'bv', 'datatypes', 'fp', 'strings')
+    ]
+
+
 def contracts(tier):
     from pyvc.interp import PyRaise  # noqa
     from . import c08, traversals, writers, rebuild
@@ -656,17 +789,7 @@ def contracts(tier):
         writers.contracts(tier) + rebuild.contracts(tier) + \
         rebuild.reduplicate_contracts(tier) + \
         rebuild.substitute_contracts(tier)
-    for th in ('arithmetic', 'bv', 'datatypes', 'fp', 'strings'):
-        cs.append(
-            Contract(f'C04/mutators_{th}.is_relevant',
-                     [f'ddsmt.mutators_{th}.is_relevant'],
-                     make_is_relevant(th), setup=setup_nodes,
-                     assumptions=A_NODES + [
-                         'nodes.contains used through its contract (applies '
-                         'the predicate to sub-nodes only)'],
-                     replay=search_replay(
-                         f'mutators_{th}.is_relevant(node)',
-                         imports=f'from ddsmt import mutators_{th}')))
+    cs += is_relevant_contracts(tier)
     cs.append(
         Contract('C04/collect_information', [CI], run_collect,
                  setup=setup_collect, replay=collect_replay,
